@@ -26,7 +26,7 @@ WORK = os.path.join(VERIF, 'work')
 DRIVER = os.path.join(LEAN, '.lake', 'build', 'bin', 'driver')
 HARNESS_BIN = os.path.join(HARNESS, 'target', 'debug', 'verif_harness')
 ALLOWED_AXIOMS = {'propext', 'Classical.choice', 'Quot.sound'}
-FORBIDDEN = [r'\bsorry\b', r'\badmit\b', r'^\s*axiom\s', r'\bnative_decide\b', r'\bbv_decide\b', r'\bimplemented_by\b',
+FORBIDDEN = [r'\bsorry\b', r'(^|\bby|;|<;>|·|=>)\s*admit\s*($|;|<;>)', r'^\s*axiom\s', r'\bnative_decide\b', r'\bbv_decide\b', r'\bimplemented_by\b',
              r'\bunsafe\s', r'^\s*partial\s', r'maxHeartbeats\s+0\b', r'\bunsafeCast\b', r'@\[extern']
 TRUSTED_BASE = [
     'Lean 4.33.0 kernel (thorough tier: re-checked by leanchecker)',
